@@ -55,7 +55,10 @@ def extract_platforms(setmap):
     Extract a list of unique platforms from a set map
     """
     unique_platforms = set(it.chain.from_iterable(setmap.keys()))
-    return list(unique_platforms)
+
+    # Sort, so that sums over platforms (e.g. in divergence) are evaluated in
+    # the same order on every run and print the same rounded value.
+    return sorted(unique_platforms)
 
 
 def coverage(
@@ -129,7 +132,7 @@ def average_coverage(
     if len(platforms) == 0:
         return float("nan")
 
-    total = sum([coverage(setmap, [p]) for p in platforms])
+    total = sum([coverage(setmap, [p]) for p in sorted(platforms)])
     return total / len(platforms)
 
 
